@@ -312,6 +312,67 @@ fn parse(text: &str, extra_import: Option<(&str, &str)>) -> Parsed {
 }
 
 /// clauses (i), (ii), (iii), (v); returns the new text when the edits could be applied
+/// Outcome of the document-level clauses (i), (ii), (iii), (v) for one proposed set of edits.
+pub struct EditCheck {
+  /// the edited document when the edits could be applied
+  pub new_text: Option<String>,
+  /// (clause, detail) of every failed clause
+  pub failures: Vec<(String, String)>,
+  /// clauses (iii)-(vi) do not apply because the document already had syntax errors
+  pub old_had_syntax_errors: bool,
+}
+
+/// Pure part of the C16 oracle (shared by L1 and L2).
+pub fn check_edits(old_text: &str, class: &str, from_module: Option<&str>, edits: &[(Location, String)]) -> EditCheck {
+  let mut out = EditCheck { new_text: None, failures: Vec::new(), old_had_syntax_errors: false };
+  if edits.is_empty() {
+    out.failures.push(("no_edits".into(), "the action carries no edits".into()));
+    return out;
+  }
+  // (i)
+  let new_text = match apply_edits(old_text, edits) {
+    Ok(t) => t,
+    Err(e) => {
+      out.failures.push(("i_ranges".into(), e));
+      return out;
+    }
+  };
+  out.new_text = Some(new_text.clone());
+  let old = parse(old_text, None);
+  if old.syntax_errors > 0 {
+    out.old_had_syntax_errors = true;
+    return out;
+  }
+  // (ii)
+  let new = parse(&new_text, None);
+  if new.syntax_errors > 0 {
+    out.failures.push(("ii_new_syntax_error".into(), format!("the edited document has {} syntax errors, the original had none", new.syntax_errors)));
+    return out;
+  }
+  // (iii)
+  let imported = new.imports.iter().any(|(m, names)| from_module.map(|f| f == m).unwrap_or(true) && names.iter().any(|n| n == class));
+  if !imported {
+    out.failures.push(("iii_import_absent".into(), format!("the edited document does not import `{class}` from {:?}; imports = {:?}", from_module, new.imports)));
+    return out;
+  }
+  // (v)
+  if let Some(f) = from_module {
+    let expected = parse(old_text, Some((class, f)));
+    if expected.printed != new.printed {
+      out.failures.push(("v_program_changed".into(), "the edited document is not the original program plus the import".into()));
+    }
+  }
+  out
+}
+
+pub fn signature_tag(old_text: &str, class: &str) -> String {
+  cause_tag(old_text, class)
+}
+
+pub fn title_parts(title: &str) -> Option<(String, String)> {
+  parse_title(title)
+}
+
 fn check_action(
   acc: &mut C16Access,
   i: usize,
@@ -324,50 +385,18 @@ fn check_action(
 ) -> Option<String> {
   acc.probe("actions_checked");
   let layout = cause_tag(old_text, class);
-  let fail = |acc: &mut C16Access, clause: &str, detail: String| {
+  let r = check_edits(old_text, class, from_module, edits);
+  if r.old_had_syntax_errors {
+    acc.probe("clauses_iii_v_skipped_old_text_had_syntax_errors");
+  }
+  for (clause, detail) in &r.failures {
     acc.violation(
       i,
       format!("{source}|{clause}|{layout}"),
       format!("{source} for `{class}` in {}: {detail}; edits = {:?}", mod_display(module), edits.iter().map(|(l, t)| (l.pretty_print_without_file(), t.clone())).collect::<Vec<_>>()),
     );
-  };
-  if edits.is_empty() {
-    fail(acc, "no_edits", "the action carries no edits".into());
-    return None;
   }
-  // (i)
-  let new_text = match apply_edits(old_text, edits) {
-    Ok(t) => t,
-    Err(e) => {
-      fail(acc, "i_ranges", e);
-      return None;
-    }
-  };
-  let old = parse(old_text, None);
-  if old.syntax_errors > 0 {
-    acc.probe("clauses_iii_v_skipped_old_text_had_syntax_errors");
-    return Some(new_text);
-  }
-  // (ii)
-  let new = parse(&new_text, None);
-  if new.syntax_errors > 0 {
-    fail(acc, "ii_new_syntax_error", format!("the edited document has {} syntax errors, the original had none", new.syntax_errors));
-    return Some(new_text);
-  }
-  // (iii)
-  let imported = new.imports.iter().any(|(m, names)| from_module.map(|f| f == m).unwrap_or(true) && names.iter().any(|n| n == class));
-  if !imported {
-    fail(acc, "iii_import_absent", format!("the edited document does not import `{class}` from {:?}; imports = {:?}", from_module, new.imports));
-    return Some(new_text);
-  }
-  // (v)
-  if let Some(f) = from_module {
-    let expected = parse(old_text, Some((class, f)));
-    if expected.printed != new.printed {
-      fail(acc, "v_program_changed", "the edited document is not the original program plus the import".into());
-    }
-  }
-  Some(new_text)
+  r.new_text
 }
 
 fn parse_title(title: &str) -> Option<(String, String)> {
